@@ -680,3 +680,63 @@ Proof.
   exists dirty_history. destruct dirty_witness as [Hwf [_ [f [Hin [Hc [_ Hr]]]]]].
   split; [exact Hwf|]. exists f. auto.
 Qed.
+
+(* ------------------------------------------------------------------ ties: same version, older mtime never wins *)
+(* f ranks below L for recovery: lower version, or the same version with a strictly older mtime *)
+Definition below (f L : mfile) : Prop := fver f < fver L \/ (fver f = fver L /\ (fmt f < fmt L)%Z).
+
+Lemma arec_below : forall fs best L,
+  (forall f, In f fs -> f = L \/ below f L) ->
+  (best = None \/ best = Some L \/ exists b, best = Some b /\ below b L) ->
+  (In L fs \/ best = Some L) ->
+  arec fs best = Some L.
+Proof.
+  induction fs as [|f fs IH]; intros best L Hfs Hb HL; cbn [arec].
+  - destruct HL as [[]|HL]. exact HL.
+  - assert (Hfs' : forall g, In g fs -> g = L \/ below g L) by (intros g Hg; apply Hfs; right; exact Hg).
+    destruct (Hfs f (or_introl eq_refl)) as [->|Hf].
+    + (* the listed file is L itself *)
+      assert (K : arec fs (Some L) = Some L) by (apply IH; [exact Hfs'|right; left; reflexivity|right; reflexivity]).
+      destruct Hb as [->|[->|[b [-> Hbl]]]].
+      * exact K.
+      * rewrite N.ltb_irrefl, N.eqb_refl, Z.ltb_irrefl. exact K.
+      * destruct Hbl as [Hlt|[Heq Hmt]].
+        -- replace (fver b <? fver L) with true by lia. exact K.
+        -- replace (fver b <? fver L) with false by lia. replace (fver L =? fver b) with true by lia.
+           replace (fmt b <? fmt L)%Z with true by lia. exact K.
+    + (* a file ranking below L *)
+      assert (HL' : In L fs \/ best = Some L).
+      { destruct HL as [[->|HL]|HL]; auto. exfalso. unfold below in Hf. lia. }
+      destruct Hb as [->|[->|[b [-> Hbl]]]].
+      * assert (HinL : In L fs) by (destruct HL' as [H|H]; [exact H|discriminate H]).
+        apply IH; [exact Hfs'|right; right; exists f; auto|left; exact HinL].
+      * assert (K : arec fs (Some L) = Some L) by (apply IH; [exact Hfs'|right; left; reflexivity|right; reflexivity]).
+        destruct Hf as [Hlt|[Heq Hmt]].
+        -- replace (fver L <? fver f) with false by lia. replace (fver f =? fver L) with false by lia. exact K.
+        -- replace (fver L <? fver f) with false by lia. replace (fver f =? fver L) with true by lia.
+           replace (fmt L <? fmt f)%Z with false by lia. exact K.
+      * assert (HinL : In L fs).
+        { destruct HL' as [H|H]; [exact H|]. inversion H; subst. exfalso. unfold below in Hbl. lia. }
+        assert (Kf : arec fs (Some f) = Some L) by (apply IH; [exact Hfs'|right; right; exists f; auto|left; exact HinL]).
+        assert (Kb : arec fs (Some b) = Some L) by (apply IH; [exact Hfs'|right; right; exists b; auto|left; exact HinL]).
+        destruct (fver b <? fver f); [exact Kf|].
+        destruct (fver f =? fver b); [destruct (fmt b <? fmt f)%Z; [exact Kf|exact Kb]|exact Kb].
+Qed.
+
+(* With the pointer lost or unparseable, recovery picks the published file L whenever every other file has a lower
+   version or the same version and a strictly older mtime -- whatever the listing order. *)
+Theorem tiebreak : forall fs L p,
+  Forall wf_file fs -> In L fs -> (forall f, In f fs -> f <> L -> below f L) -> read_hint p = PRet None ->
+  resolve p (map entry_of fs) = RRet (Some (fver L, fname L)).
+Proof.
+  intros fs L p Hwf HL Hb Hp. unfold resolve. rewrite Hp. rewrite (recover_refines fs Hwf).
+  rewrite (arec_below fs None L); auto.
+  intros f Hf. destruct (mfile_eq_dec f L) as [->|D]; [left; reflexivity|right; apply Hb; assumption].
+Qed.
+
+(* ... and with an equal mtime the first one listed wins, so the guarantee stops there *)
+Lemma tiebreak_equal_mtime_first_listed :
+  let a := {| fver := 1; fid := wid 1; fmt := 5; fcom := true; fuuid := 7; fsnaps := [1] |} in
+  let o := {| fver := 1; fid := wid 2; fmt := 5; fcom := false; fuuid := 7; fsnaps := [1; 2] |} in
+  resolve None (map entry_of [o; a]) = RRet (Some (1, fname o)) /\ resolve None (map entry_of [a; o]) = RRet (Some (1, fname a)).
+Proof. vm_compute. split; reflexivity. Qed.
